@@ -29,6 +29,14 @@ FTYPES = {
     "PtrT": ("*const T", "T", False, "::core::ptr::null()"),
     "Assoc": ("T::Assoc", "T", False, None),
     "QAssoc": ("<T as " + D + "Tr>::Assoc", "T", False, None),
+    # a parameter next to a path that is not a parameter (in either order, written without a leading `::`)
+    "TupT8": ("(T, u8)", "T", False, None),
+    "Tup8T": ("(u8, T)", "T", False, None),
+    "ResT8": ("::core::result::Result<T, u8>", "T", False, None),
+    "OptTup": ("::core::option::Option<(u8, T, u8)>", "T", False, "::core::option::Option::None"),
+    "FnT8": ("fn(T) -> u8", "T", False, None),
+    "ArrTup": ("[(T, u8); 2]", "T", False, None),
+    "QAssocRel": ("<T as dxrt::Tr>::Assoc", "T", False, None),
     "u8": ("u8", "", False, "5"),
     "Yes": (D + "Yes", "", False, D + "Yes"),
     "RefU8": ("&'l u8", "", True, None),
@@ -105,7 +113,7 @@ def params_of(spec):
             t = FTYPES[f["ft"]]
             used |= set(t[1])
             lt |= t[2]
-            assoc |= f["ft"] in ("Assoc", "QAssoc")
+            assoc |= f["ft"] in ("Assoc", "QAssoc", "QAssocRel")
     return sorted(used), lt, assoc
 
 
@@ -362,7 +370,8 @@ def core(rng):
     k = 0
     # every trait x a few characteristic field types, struct form
     for t in PLAIN + C.BINOPS + C.ASSIGNOPS + C.UNOPS:
-        for fts in (["PhT", "T"], ["FwdT", "AlwaysT"], ["NeverT"], ["OptT", "u8"], ["ArrN", "Yes"], ["Assoc", "U"]):
+        for fts in (["PhT", "T"], ["FwdT", "AlwaysT"], ["NeverT"], ["OptT", "u8"], ["ArrN", "Yes"], ["Assoc", "U"], ["TupT8", "Tup8T"],
+                    ["ResT8", "FnT8"], ["QAssocRel", "ArrTup"], ["OptTup"]):
             k += 1
             fts = [f for f in fts if concrete_ok(f, t)]
             specs.append({"trait": t, "kind": "struct", "entry": "attr" if k % 2 else "derive", "where_tr": k % 4 == 0, "dv": 0,
@@ -456,7 +465,7 @@ def run(rep, tier, rng):
     rep.canary = bool(check_case(ok.meta["spec"], ev)[0])
     rep.rule = ("non-recursive generic structs/enums with type/const/lifetime parameters, inline bounds or where-clauses, field types "
                 "from the grammar {T, U, Fwd<T>, Always<T>, Never<T>, Option<T>, Vec<T>, Box<T>, Rc<T>, PhantomData<T>, &'a T, (T,U), "
-                "[T;N], [u8;N], fn(T)->U, *const T, T::Assoc, <T as Tr>::Assoc, concrete}; one derived trait per case out of Copy, "
+                "[T;N], [u8;N], fn(T)->U, *const T, T::Assoc, <T as Tr>::Assoc, (T,u8), (u8,T), Result<T,u8>, Option<(u8,T,u8)>, fn(T)->u8, [(T,u8);2], concrete}; one derived trait per case out of Copy, "
                 "Clone, Debug, Default, the five comparison traits and all 22 operator traits (every owned/reference form); fields "
                 "made unused by debug(ignore/transparent), cmp ignore/key/by, explicit default values, non-default variants. Oracle: "
                 "for every instantiation of the parameters by Yes/No (YesToNo/NoToYes with associated types, N in {0,33}) the "
